@@ -394,14 +394,16 @@ def main():
                 return
             h, frm, cnt = job
             t0 = time.time()
-            res, viol, err = run_worker(h, seed, frm, cnt, trace_dir, "w%d" % wid, cpu=wid % (os.cpu_count() or 1))
-            if err and h.endswith(".guard") and "without a result line" in err:
+            # the guard flavour has no sanitizer runtime: a heap it corrupted can also deadlock the process inside malloc,
+            # so its workers get a short leash and a timeout is treated like a silent death
+            res, viol, err = run_worker(h, seed, frm, cnt, trace_dir, "w%d" % wid, cpu=wid % (os.cpu_count() or 1), timeout=240 if h.endswith(".guard") else 900)
+            if err and h.endswith(".guard") and ("without a result line" in err or "worker timeout" in err):
                 # the guard flavour has no sanitizer: a corrupted heap can take the process down before it reports. The
                 # sanitizer flavour of the same harness runs the same seeds identically - let it name the error.
                 h2 = h[:-len(".guard")]
                 res2, viol2, err2 = run_worker(h2, seed, frm, cnt, trace_dir, "w%dr" % wid, cpu=wid % (os.cpu_count() or 1))
                 if viol2 is not None:
-                    log("%s died without a report in runs %d..%d; the sanitizer flavour reports %s at run %d" % (h, frm, frm + cnt - 1, viol2["result"]["cls"], viol2["run"]))
+                    log("%s died or hung without a report in runs %d..%d; the sanitizer flavour reports %s at run %d" % (h, frm, frm + cnt - 1, viol2["result"]["cls"], viol2["run"]))
                     h, res, viol, err = h2, res2, viol2, None
             dt = time.time() - t0
             with lock:
